@@ -83,6 +83,12 @@ Theorem C14_history_server_validate : forall rqs st, store_ok st = true ->
 Proof. exact serve_history_observe. Qed.
 Print Assumptions C14_history_server_validate.
 
+(* validate requests interleaved with library operations on the stored files (the pointers are shared) *)
+Theorem C14_history_server_mixed : forall rqs st, store_ok st = true ->
+  store_observe (fold_left serve_x rqs st) = store_observe st.
+Proof. exact serve_x_history_observe. Qed.
+Print Assumptions C14_history_server_mixed.
+
 (* ... and, with no condition on the stored files, their ids and stored options *)
 Theorem C14_server_validate_opts_kept : forall rqs st,
   map (fun kf => (fst kf, x_opts (snd kf))) (fold_left serve rqs st) = map (fun kf => (fst kf, x_opts (snd kf))) st.
